@@ -368,6 +368,10 @@ def sample_members(rng, k, timeframes=(None,), allow_amorph=True, max_period=12,
                 from .world import equiv_spelling
 
                 spec["common"]["timeframe"] = equiv_spelling(tf)
+        if rng.random() < 0.06:
+            # the documented way to choose the whole name (nothing of the generated name, nor the timeframe, in it)
+            spec["common"].pop("name_suffix", None)
+            spec["common"]["fullname_override"] = rng.choice(("slow", "trend", "sig", "line")) + str(len(out))
         name = member_name(spec)
         if name in names or any(helper_collision(spec, o) for o in out):
             continue
